@@ -162,7 +162,7 @@ var propSpecs = map[string]*propSpec{
 	},
 	"C05": {
 		id:      "C05",
-		streams: []stream{{"segments", 15000}, {"segprobe", 8000}, {"bucketdense", 4000}},
+		streams: []stream{{"segments", 15000}, {"segprobe", 8000}, {"bucketdense", 4000}, {"segsplit", 3000}},
 		proj: func(o *WObs) any {
 			return []any{o.Result.Reason.Kind, o.Result.Reason.ErrorKind, o.Result.Reason.RuleIndex, o.SegLookups}
 		},
@@ -190,7 +190,7 @@ var propSpecs = map[string]*propSpec{
 	},
 	"C07": {
 		id:      "C07",
-		streams: []stream{{"bucketsplit", 10000}, {"rollouts", 6000}, {"bucketdense", 3000}},
+		streams: []stream{{"bucketsplit", 10000}, {"rollouts", 6000}, {"bucketdense", 3000}, {"segsplit", 3000}},
 		proj:    func(o *WObs) any { return []any{o.Result.Index, o.Result.Reason.Kind, o.Result.Reason.ErrorKind} },
 		nontrivial: func(c *EvalCase) bool {
 			return hasRollout(&c.Flag)
@@ -248,7 +248,7 @@ var propSpecs = map[string]*propSpec{
 	},
 	"C11": {
 		id:      "C11",
-		streams: []stream{{"bigseg", 15000}},
+		streams: []stream{{"bigseg", 15000}, {"manykinds", 3000}},
 		proj: func(o *WObs) any {
 			return []any{o.Result.Reason.BSS, o.BSQueries, o.MemChecks, core(o)}
 		},
